@@ -203,6 +203,10 @@ type Op struct {
 	Chart          ChartSpec              `json:"chart"`
 	Values         map[string]interface{} `json:"values,omitempty"`
 	Fault          Fault                  `json:"fault,omitempty"`
+	// Also: a second fault (kind kubematch only), see OpCtx.Also
+	Also Fault `json:"also,omitempty"`
+	// Timeout of the operation (0 = none, the action default)
+	Timeout time.Duration `json:"timeout,omitempty"`
 	// Interject makes another actor create an object while the operation runs: right before the operation's
 	// AtKube-th cluster request is processed (only if no object exists at that path then).
 	Interject *Interject `json:"interject,omitempty"`
@@ -255,6 +259,13 @@ func (o *Op) Describe() string {
 	if o.MaxHistory != 0 {
 		fl = append(fl, fmt.Sprintf("max-history=%d", o.MaxHistory))
 	}
+	add(o.CreateNS, "create-namespace")
+	if o.Timeout != 0 {
+		fl = append(fl, fmt.Sprintf("timeout=%s", o.Timeout))
+	}
+	if o.Also.Kind != "" {
+		fl = append(fl, fmt.Sprintf("also-rejected=%s %s", o.Also.Verb, o.Also.Path))
+	}
 	s := o.Kind
 	switch o.Kind {
 	case "install", "upgrade":
@@ -263,6 +274,9 @@ func (o *Op) Describe() string {
 			p := ""
 			if r.Policy != "" {
 				p = "{" + r.Policy + "}"
+			}
+			if r.APIVer != "" {
+				p += "<" + r.APIVer + ">"
 			}
 			rs = append(rs, fmt.Sprintf("%s.%d%s", r.Key(), r.Variant, p))
 		}
@@ -347,7 +361,7 @@ func (w *World) NewConfig(ctx *OpCtx) (*action.Configuration, func()) {
 // Run executes one operation with a fresh Configuration, chart object and context.
 func (w *World) Run(op *Op) *Result {
 	w.nextOp++
-	ctx := &OpCtx{ID: w.nextOp, Fault: op.Fault, Gate: op.Gate}
+	ctx := &OpCtx{ID: w.nextOp, Fault: op.Fault, Also: op.Also, Gate: op.Gate}
 	if ij := op.Interject; ij != nil {
 		n := 0
 		inner := op.Gate
@@ -390,6 +404,7 @@ func (w *World) Run(op *Op) *Result {
 			a.Description, a.Labels = op.Description, op.Labels
 			a.HideSecret, a.IsUpgrade = op.HideSecret, op.IsUpgrade
 			a.WaitStrategy = kube.StatusWatcherStrategy
+			a.Timeout = op.Timeout
 			if op.PostRender {
 				a.PostRenderer = postRenderer{}
 			}
@@ -407,6 +422,7 @@ func (w *World) Run(op *Op) *Result {
 			a.Description, a.Labels = op.Description, op.Labels
 			a.HideSecret = op.HideSecret
 			a.WaitStrategy = kube.StatusWatcherStrategy
+			a.Timeout = op.Timeout
 			if op.PostRender {
 				a.PostRenderer = postRenderer{}
 			}
@@ -419,6 +435,7 @@ func (w *World) Run(op *Op) *Result {
 			a.Version, a.CleanupOnFail, a.DisableHooks, a.Force, a.MaxHistory, a.DryRun = op.Target, op.CleanupOnFail, op.DisableHooks, op.Force, op.MaxHistory, op.DryRun
 			a.WaitForJobs = op.WaitForJobs
 			a.WaitStrategy = kube.StatusWatcherStrategy
+			a.Timeout = op.Timeout
 			if op.Customize != nil {
 				op.Customize(a)
 			}
@@ -428,6 +445,7 @@ func (w *World) Run(op *Op) *Result {
 			a.KeepHistory, a.DisableHooks, a.DryRun = op.KeepHistory, op.DisableHooks, op.DryRun
 			a.Description = op.Description
 			a.WaitStrategy = kube.StatusWatcherStrategy
+			a.Timeout = op.Timeout
 			if op.Customize != nil {
 				op.Customize(a)
 			}
